@@ -18,7 +18,8 @@
 (***************************************************************************)
 EXTENDS SeqVal, TLC, Json, CSV, IOUtils
 
-CONSTANTS MaxLen,        \* longest sequence
+CONSTANTS MaxLen,        \* longest sequence (with qualities and annotations)
+          PlainMaxLen,   \* longest sequence without qualities / annotations
           LawAlpha,      \* sub-alphabet of Bio!Alphabet
           KmerK          \* k of the k-mer cases (even: obikmer demands it in non sparse mode)
 
@@ -45,7 +46,8 @@ ApatPatterns ==
     <<"a", "[", "a", "g", "]", "[", "c", "t", "]", "n">> }
 
 Cases ==
-  {[k |-> "seq", s |-> s, ann |-> a] : s \in UNION {[1..n -> LawAlpha] : n \in 1..MaxLen}, a \in {0, 1}}
+  {[k |-> "seq", s |-> s, ann |-> 1] : s \in UNION {[1..n -> LawAlpha] : n \in 1..MaxLen}}
+  \cup {[k |-> "seq", s |-> s, ann |-> 0] : s \in UNION {[1..n -> LawAlpha] : n \in 1..PlainMaxLen}}
   \cup {[k |-> "table", s |-> <<>>, ann |-> 0]}
   \cup {[k |-> "kmer", s |-> s, ann |-> 0] : s \in [1..KmerK -> Nucleotides]}
   \cup {[k |-> "apat", s |-> s, ann |-> 0] : s \in ApatPatterns}
@@ -105,14 +107,15 @@ Canonical(s) == IF Code(s) <= Code(RC(s)) THEN Code(s) ELSE Code(RC(s))
 ---------------------------------------------------------------------------
 Out(x) == CSVWrite("%1$s", <<ToJson(x)>>, IOEnv.VERIF_CASES)
 
+(* one line for the reverse complement, one line per window start with all windows starting there *)
 ExportSeq(v) ==
-  LET n == Len(v.seq) IN
-  /\ Out([k |-> "rc", v |-> v, e |-> VRC(v)])
-  /\ \A w \in Windows(n) :
-       LET u == VSub(v, w[1], w[2])
-           m == Mirror(n, w[1], w[2])
-       IN Out([k |-> "sub", v |-> v, from |-> w[1], to |-> w[2], circ |-> w[3],
-               e |-> u, mf |-> m[1], mt |-> m[2], erc |-> VRC(u)])
+  LET n == Len(v.seq)
+      W == Windows(n)
+      Item(w) == LET u == VSub(v, w[1], w[2])
+                     m == Mirror(n, w[1], w[2])
+                 IN [from |-> w[1], to |-> w[2], circ |-> w[3], e |-> u, mf |-> m[1], mt |-> m[2], erc |-> VRC(u)]
+  IN /\ Out([k |-> "rc", v |-> v, e |-> VRC(v)])
+     /\ \A f \in {w[1] : w \in W} : Out([k |-> "subs", v |-> v, ws |-> {Item(w) : w \in {x \in W : x[1] = f}}])
 
 Export(cc) ==
   CASE cc.k = "seq"   -> ExportSeq(CaseVal(cc.s, cc.ann))
